@@ -41,11 +41,11 @@ def export_walks(scr, num, depth, seed, broker, name, e=2):
                    simulate="num=%d" % max(1, num // 4), depth=depth + 2, seed=seed)
 
 
-def replay(vh, scr, broker, e, tag, edges=None, walks=None):
+def replay(vh, scr, broker, e, tag, edges=None, walks=None, conc=0):
     cfgp = scr.path("gcfg-%s.json" % tag)
     json.dump({"ids": ["x", "y", "z"], "e": e, "broker_set": broker}, open(cfgp, "w"))
     outp = scr.path("grep-%s.json" % tag)
-    args = ["gated-replay", "-cfg", cfgp, "-out", outp]
+    args = ["gated-replay", "-cfg", cfgp, "-out", outp, "-conc", str(conc)]
     if edges:
         args += ["-edges", edges]
     if walks:
@@ -79,7 +79,7 @@ def run(prop, tier, seed, out):
                 w = f.result()
                 if w.error and "simulation" not in w.error.lower():
                     raise Broken(tag + ": " + w.error)
-                reports.append((tag, replay(vh, scr, broker, e, tag, walks=w.out_path)))
+                reports.append((tag, replay(vh, scr, broker, e, tag, walks=w.out_path, conc=20 if quick else 200)))
             for f in f_design:
                 r = f.result()
                 if r.violated:
@@ -103,6 +103,7 @@ def run(prop, tier, seed, out):
                        "a real gated.Filter; after each, FlushAll and one flush event per id are run on replayed copies to expose what is still gated; "
                        "non-trivial = distinct histories ending in a call that did not return an error")
         cov["exhaustive"] = True
+        cov["concurrent_sender_runs"] = sum(r.get("conc_runs", 0) for _, r in reports)
         for _, r in reports:
             cov["samples"] += (r.get("samples") or [])[:2]
         out.assumptions += ["the harness Gateable payload reports truthfully which events ComposeFrom was given", "NowFunc is the filter's only clock"]
